@@ -46,6 +46,12 @@ fn strings(max_components: usize, abs_prefix: &str) -> Vec<String> {
                 let mut v = prefix.clone();
                 v.push(c);
                 rel.push(v.join("/"));
+                // the same components separated by backslashes (one component on this platform; a
+                // client that 'normalises' them would turn them into real separators), and mixed
+                if v.len() > 1 {
+                    rel.push(v.join("\\"));
+                    rel.push(format!("{}\\{}", v[..v.len() - 1].join("/"), v[v.len() - 1]));
+                }
                 next.push(v);
             }
         }
@@ -211,7 +217,7 @@ pub fn run(ctx: &Ctx) -> Outcome {
     let mut o = Outcome::new("exploration");
     o.set("evaluations", json!(all.len()));
     o.set("distinct_nontrivial", json!(hostile));
-    o.set("rule", json!(format!("strings = 1..=3 components from {:?} joined by '/', each also prefixed with an absolute canary directory; single-file torrents: every such name x content length in {{3, 0, 9}} (piece length 4); multi-file torrents: every name of <= {} components x every such path x 7 layouts (the file carrying the path is first / middle / last / the only one, 2 bytes / empty / spanning two pieces); all cases distinct; non-trivial = a '..' component or an absolute path occurs", COMPONENTS, ctx.tier.pick(1, 2))));
+    o.set("rule", json!(format!("strings = 1..=3 components from {:?} joined by '/', by backslashes, or by '/' with a backslash before the last component, each also prefixed with an absolute canary directory; single-file torrents: every such name x content length in {{3, 0, 9}} (piece length 4); multi-file torrents: every name of <= {} components x every such path x 7 layouts (the file carrying the path is first / middle / last / the only one, 2 bytes / empty / spanning two pieces); all cases distinct; non-trivial = a '..' component or an absolute path occurs", COMPONENTS, ctx.tier.pick(1, 2))));
     let picks = ctx.seeded_pick(all.len(), 5);
     o.set("samples", Value::Array(picks.iter().map(|i| json!({"name": all[*i].name, "path": all[*i].path, "layout": all[*i].layout})).collect()));
     o.set("exhaustive", json!(true));
